@@ -80,6 +80,34 @@ func lines(f *IgFile, text string, once ...string) {
 	}
 }
 
+// IgRealMarked returns the base with REAL @ignore markers in it: a category before a function, a file-level
+// list, a trailing category, @ignore ALL before a function, and one exact code on an early one-line declaration.
+// Its own unrestricted run is the reference for whatever is layered on top (exclude-checks in C08, a further
+// appended marker in C17).
+func IgRealMarked(base *IgBase) *IgBase {
+	real := base.Clone()
+	for _, f := range real.Files {
+		var out []IgLine
+		for i, l := range f.Lines {
+			switch {
+			case f.Pkg == PathU && f.Name == "a.go" && strings.HasPrefix(l.Text, "func f1("):
+				out = append(out, IgLine{Text: "// @ignore IMM"})
+			case f.Pkg == PathU && f.Name == "b.go" && i == 0:
+				out = append(out, IgLine{Text: "// @ignore TONL, PKGO01"}, IgLine{Text: ""})
+			case f.Pkg == PathD && l.Text == "\t_ = T{}":
+				l.Text += " // @ignore CTOR"
+			case f.Pkg == PathU && f.Name == "a.go" && strings.HasPrefix(l.Text, "func f2("):
+				out = append(out, IgLine{Text: "// @ignore ALL"})
+			case f.Pkg == PathU && f.Name == "a.go" && l.Text == "var G1 = d.T{}":
+				l.Text += " // @ignore CTOR01"
+			}
+			out = append(out, l)
+		}
+		f.Lines = out
+	}
+	return real
+}
+
 // IgBases returns the base programs.
 func IgBases() []*IgBase {
 	d := &IgFile{Pkg: PathD, Name: "a.go"}
@@ -87,13 +115,23 @@ func IgBases() []*IgBase {
 
 // T is immutable and constructor-restricted.
 // @immutable
-// @constructor NewT
+// @constructor NewT, NewT2
 type T struct {
 	F  int
 	Xs []int
 }
 
 func NewT() *T { return &T{} }
+
+// NewT2 fills the value in after creating it: only its being a listed constructor keeps these writes legal.
+func NewT2() *T {
+	t := new(T)
+	t.F = 1
+	t.F++
+	t.Xs = []int{1}
+	t.Xs[0] = 2
+	return t
+}
 
 // Mock is test-only and restricted.
 // @testonly
@@ -324,6 +362,21 @@ func f2(x d.T) {
 
 import "ex.com/m/d"
 
+// g0 and holder spread their parameter / field lists over several lines.
+func g0(`)
+	lines(ub, `	m d.Mock,`, "TONL01:Mock", "PKGO01:Mock")
+	lines(ub, `	x d.T,
+) {
+	x.F = 20
+	d.Helper()
+}
+
+type holder struct {
+	k int`)
+	lines(ub, `	pt d.PT`, "PKGO01:PT")
+	lines(ub, `	x  d.T
+}
+
 func g1(x d.T, s d.S) {
 	x.F = 7
 	_ = d.T{}
@@ -342,7 +395,7 @@ var GZ = new(d.T)
 	// same code on the same line NUMBER of another file of the package
 	uc := &IgFile{Pkg: PathU, Name: "c.go"}
 	for _, l := range ub.Lines {
-		t := strings.NewReplacer("g1(", "k1(", "GZ", "KZ").Replace(l.Text)
+		t := strings.NewReplacer("g1(", "k1(", "GZ", "KZ", "g0(", "k0(", "type holder ", "type holder2 ").Replace(l.Text)
 		uc.Lines = append(uc.Lines, IgLine{Text: t, Once: l.Once})
 	}
 	return []*IgBase{{Name: "all16", Files: []*IgFile{d, ua, ub, uc}}}
@@ -365,9 +418,10 @@ const (
 	PlNextTrail IgPlacement = "trailing-next-line"
 	PlSibling   IgPlacement = "before-next-sibling"
 	PlOtherFile IgPlacement = "other-file-level"
+	PlField     IgPlacement = "before-field" // own line before the parameter / result / struct field that carries the diagnostic, inside a multi-line list
 )
 
-var IgPlacements = []IgPlacement{PlFile, PlFileDetached, PlDecl, PlStmt, PlOuterStmt, PlTrail, PlPrevTrail, PlNextTrail, PlSibling, PlOtherFile}
+var IgPlacements = []IgPlacement{PlFile, PlFileDetached, PlDecl, PlStmt, PlOuterStmt, PlTrail, PlPrevTrail, PlNextTrail, PlSibling, PlOtherFile, PlField}
 
 // FileInfo is the parsed structure of one base file used to place comments and compute scopes.
 type FileInfo struct {
@@ -430,6 +484,25 @@ func (fi *FileInfo) StmtSpan(line int) (int, int) {
 		}
 	}
 	return fi.DeclSpan(line)
+}
+
+// FieldSpan: line span of the parameter, result or struct field that starts on the given line inside a
+// field list spread over several lines (0,0 if the line does not start such a field).
+func (fi *FileInfo) FieldSpan(line int) (int, int) {
+	bs, be := 0, 0
+	ast.Inspect(fi.file, func(n ast.Node) bool {
+		fl, ok := n.(*ast.FieldList)
+		if !ok || fl == nil || !fl.Opening.IsValid() || fi.line(fl.Opening) == fi.line(fl.Closing) {
+			return true
+		}
+		for _, f := range fl.List {
+			if s := fi.line(f.Pos()); s == line && s != fi.line(fl.Opening) {
+				bs, be = s, fi.line(f.End())
+			}
+		}
+		return true
+	})
+	return bs, be
 }
 
 // OuterStmtSpan: span of the outermost statement inside the function body containing line, if it
@@ -639,6 +712,13 @@ func MakeVariant(b *IgBase, fidx, line int, pl IgPlacement, comment string) (*Ig
 			return nil, nil, false
 		}
 		v.From, v.To = line+1, line+1
+	case PlField:
+		s, e := info.FieldSpan(line)
+		if s == 0 {
+			return nil, nil, false
+		}
+		insertBefore(fidx, s, indentOf(s))
+		v.From, v.To = s, e+1
 	case PlSibling:
 		ns := info.NextSiblingStart(line)
 		if ns == 0 {
